@@ -185,6 +185,15 @@ def run(cx: Cx):
         for p in cx.walker.paths(addt, WalkOptions(unroll=1)):
             if p.end == 'raise':
                 continue
+            # `name in self.__dict__` / `name in vars(self)`, or hasattr(self, name), which covers the instance dict and the class
+            in_dict = [AIn(name, Attr(self_s, '__dict__')), ATruthy(App('hasattr', (self_s, name)))]
+            if not any(implies(p.cond, f_not(a)) is None for a in in_dict):
+                guards_ok = False
+                cx.violation('R-NS', addt.qualname, 'guard-rejects-names-in-the-instance-dict',
+                             f"add_tag stores caller-chosen names in the instance __dict__ but its guard [{p.cond!r}] does not exclude the names "
+                             f"that are already there: besides the tags these are the library's own attributes (_tag_counter, _tag_names), "
+                             f"which a tag of that name overwrites", where=cx.where(addt))
+                break
             if not _rejects_class_names(p.cond, self_s, name):
                 guards_ok = False
                 cx.violation('R-NS', addt.qualname, 'guard-rejects-names-bound-on-the-class',
